@@ -813,6 +813,36 @@ def spec_mangen(fns, consts):
             enc.append(_enc(fn, ex, len(ex.returns)))
         except Unsupported as e:
             shape(f"hidden filter for {what} no longer has the reference shape: " + str(e)[:80])
+    # (c) every loop of render::synopsis over the command's arguments / positionals runs over an iterator
+    #     filtered by a clap_mangen closure that is `!item.is_hide_set()` (hidden items are omitted from the SYNOPSIS too)
+    syn = [f for n, f in fns.items() if n == "synopsis" or n.endswith("::synopsis")]
+    if len(syn) != 1:
+        shape("render::synopsis not found exactly once")
+    else:
+        sfn = syn[0].get()
+        sex = symex.Exec(ctx, sfn, [("opq", "roff"), ("opq", "cmd")])
+        sex.run(havoc_unassigned=True, cut_loops=True)
+        loops = {}
+        for ca in [env.get("#callargs", ()) for _, env in sex.cuts] + list(sex.return_callargs):
+            for c in ca:
+                if re.search(r" as IntoIterator>::into_iter$", c[0]) and ("Iter<'_, Arg>" in c[0] or "Iter<'_, clap::Arg>" in c[0]):
+                    loops[c[0]] = c
+        if not loops:
+            shape("render::synopsis: no loop over arguments found")
+        for name in sorted(loops):
+            locs = re.findall(r"\{closure@clap_mangen/src/render\.rs:[\d: ]+\}", name)
+            ok = False
+            for loc in locs:
+                try:
+                    cf = _closure_fn(fns, loc)
+                    cex = symex.Exec(ctx, cf, [("opq", "syn_env"), ("opq", "syn_item")]).run()
+                    hk = [ctx.keys[k] for k in ctx.keys if re.search(r"::is_hide_set\(syn_item\)$", k)]
+                    ok = ok or (len(cex.returns) == 1 and len(hk) == 1 and not cex.returns[0][0] and cex.returns[0][1][1] == f"(not {hk[0]})")
+                except Unsupported:
+                    pass
+            what = "positionals" if "get_positionals" in name else "options"
+            obs.append({"fn": sfn.name, "block": "loop", "kind": "spec", "target": "mangen", "msg": f"synopsis: the loop over {what} runs over items filtered by `!is_hide_set()`", "pc": [], "neg": "false" if ok else "true"})
+        enc.append(_enc(sfn, sex, len(loops)))
     r = [f for n, f in fns.items() if n.endswith(">::render") and "lib.rs" in n]
     if len(r) != 1:
         raise Unsupported("clap_mangen: Man::render not found exactly once")
